@@ -301,6 +301,8 @@ func ruleCopyAlias(c *Ctx, r *Report) {
 				recv, vals, sink = call.Fun.(*ast.SelectorExpr).X, call.Args[1:], "SetMapIndex"
 			case P("internal/yreflect") + ".AppendIntoOrderedMap":
 				recv, vals, sink = call.Args[0], call.Args[1:], "AppendIntoOrderedMap"
+			case "reflect.Copy":
+				recv, vals, sink = call.Args[0], nil, "Copy"
 			default:
 				return true
 			}
